@@ -39,7 +39,7 @@ func (m *MmsTables) MergeOutOfOrder(shId uint64, full bool, force bool) error {
 		case <-m.closed:
 			log.Warn("shard closed", zap.Uint64("id", shId))
 			return nil
-		case <-m.stopCompMerge:
+		case <-m.stopCompMergeSignal():
 			log.Warn("stopped", zap.Uint64("id", shId))
 			return nil
 		case compLimiter <- struct{}{}:
@@ -84,7 +84,7 @@ func (m *MmsTables) mergeOutOfOrder(mst string, shId uint64, full bool, force bo
 		select {
 		case <-m.closed:
 			return
-		case <-m.stopCompMerge:
+		case <-m.stopCompMergeSignal():
 			return
 		default:
 			m.execMergeContext(item)
@@ -93,7 +93,7 @@ func (m *MmsTables) mergeOutOfOrder(mst string, shId uint64, full bool, force bo
 }
 
 func (m *MmsTables) getEventContext() *EventContext {
-	return NewEventContext(m.indexMergeSet, m.scheduler, m.stopCompMerge)
+	return NewEventContext(m.indexMergeSet, m.scheduler, m.stopCompMergeSignal())
 }
 
 func (m *MmsTables) execMergeContext(ctx *MergeContext) {
@@ -124,7 +124,7 @@ func (m *MmsTables) Listen(signal chan struct{}, onClose func()) {
 		select {
 		case <-m.closed:
 			onClose()
-		case <-m.stopCompMerge:
+		case <-m.stopCompMergeSignal():
 			onClose()
 		case <-signal:
 			return
